@@ -153,9 +153,9 @@ package transport
 //@ func (*Standard).openBase [C14 C11]
 //@   flows [C11] #password-goes-only-to-the-ssh-library a.Password only to Password#1.arg0, closure:openBase$1
 //@   ensures #strict-without-known-hosts-file-is-a-bad-option t.SSHArgs.StrictKey && t.SSHArgs.KnownHostsFile == "" ==> isErr(result, util.ErrBadOption)
-//@   at call openSession#1 assert #strict-checks-against-the-known-hosts-file t.SSHArgs.StrictKey ==> t.SSHArgs.KnownHostsFile != "" && arg1.HostKeyCallback == knownHostsCB(strs(t.SSHArgs.KnownHostsFile))
-//@   at call openSession#1 assert #checking-skipped-only-when-disabled !t.SSHArgs.StrictKey ==> arg1.HostKeyCallback == insecureCB()
-//@   at call openSession#1 assert #configured-user-and-timeout arg1.User == a.User && arg1.Timeout == a.TimeoutSocket
+//@   at call! openSession#1 assert #strict-checks-against-the-known-hosts-file t.SSHArgs.StrictKey ==> t.SSHArgs.KnownHostsFile != "" && arg1.HostKeyCallback == knownHostsCB(strs(t.SSHArgs.KnownHostsFile))
+//@   at call! openSession#1 assert #checking-skipped-only-when-disabled !t.SSHArgs.StrictKey ==> arg1.HostKeyCallback == insecureCB()
+//@   at call! openSession#1 assert #configured-user-and-timeout arg1.User == a.User && arg1.Timeout == a.TimeoutSocket
 
 //@ func transport.Implementation.Read
 //@   trusted
